@@ -167,7 +167,9 @@ def run(pid, tier, seed, only_case=None):
                                                  % (l, m, a, (s, exact.modp(sq, prime)), theirs[c]))
     ctx.extra["matrix_entries_fingerprinted_against_TLC"] = fp
     # ---- replay: defaults
-    for r in common.pmap(replay_default, range(11)):
+    for l_, r in enumerate(common.pmap(replay_default, range(11))):
+        if common.impl_failure(ctx, r, {"id": "default l=%d" % l_, "l": l_}, "c10", "generate_transformation"):
+            continue
         ctx.replayed += 1
         ctx.case_done(("default", r["l"]))
         ctx.note_dev("generate_transformation default", r["dev"])
@@ -188,6 +190,8 @@ def run(pid, tier, seed, only_case=None):
     chunks = [cfgs[i::64] for i in range(64)]
     nvalid = 0
     for chunk, res in zip(chunks, common.pmap(replay_conv, chunks)):
+        if isinstance(res, common.ImplFailure):
+            raise tlc.MachineryError("convention replay failed outside its own exception handling: " + res.msg)
         for c, (v, dev) in zip(chunk, res):
             ctx.replayed += 1
             valid = is_valid(c["l"], c["labels"])
